@@ -228,7 +228,10 @@ def same_calls_texts(ops, hashseed):
         "    im = I.Impl()\n"
         "    for o in ops:\n"
         "        if o[0] != 'ObserveAll': im.step(o)\n"
-        "    builds.append([[d.serialize(format='json'), d.serialize(format='xml'), d.get_provn()] for d in im.docs])\n"
+        "    def ex(f):\n"
+        "        try: return f()\n"
+        "        except Exception as e: return 'EXC:' + type(e).__name__\n"
+        "    builds.append([[ex(lambda: d.serialize(format='json')), ex(lambda: d.serialize(format='xml')), ex(lambda: d.get_provn())] for d in im.docs])\n"
         "print(json.dumps(builds))\n")
     env = common.impl_env({"PYTHONHASHSEED": str(hashseed)})
     p = subprocess.run([common.PY, "-c", code], input=json.dumps(ops), capture_output=True, text=True, env=env, timeout=120)
